@@ -14,6 +14,8 @@ class TypeGen:
         cid = lambda c: ("cls", str(tbl.of(c)))
         self.atoms = [cid(int), cid(str), cid(bool), cid(type(None)), cid(float)]
         self.classes = [cid(c) for c in (fx.A, fx.B, fx.C, fx.D, fx.E, fx.F, fx.P, fx.Q_, fx.X, fx.Y, fx.Z)]
+        self.shapes = [cid(c) for c in fx.SHAPES[1:]]
+        self.classes += self.shapes + [cid(c) for c in fx.NAME_CLASH + [fx.Falsy]]
         self.type_of = [("typeOf", str(tbl.of(c))) for c in (fx.A, fx.B, int)]
 
     def leaf(self):
@@ -60,7 +62,9 @@ class TypeGen:
         rng = self.rng
         n = rng.choice([2, 2, 3, 3, 4, 5, 6, 7, 8])
         style = rng.random()
-        if style < 0.2:      # classes only (common base / large union of classes)
+        if style < 0.06 and getattr(self, "shapes", None):     # one family, with a Protocol among the bases of some members (issubclass refuses it)
+            ms = rng.sample(self.shapes, min(n, len(self.shapes)))
+        elif style < 0.2:    # classes only (common base / large union of classes)
             ms = [rng.choice(self.classes) for _ in range(n)]
         elif style < 0.35:   # dicts with one key type (config dict)
             k = self.leaf()
